@@ -19,7 +19,9 @@ EXPLANATION = (
     "index width is the page's first byte; (3) the reader's level table (shared with C17.1); (4) enum "
     "tags equal parquet.thrift (shared with C05.2) and every Thrift wire-type tag equals the compact "
     "protocol; (5) decompress_page writes its output only inside the switch over the codec; only the "
-    "UNCOMPRESSED arm copies raw bytes, every other arm calls its decompressor. Decides these clauses, not that decoded values/levels equal the stored ones.")
+    "UNCOMPRESSED arm copies raw bytes, every other arm calls its decompressor; (6) no decoder-side function assembles a multi-byte integer "
+    "with the big-endian accumulation idiom (accumulator shifted left by whole bytes, then OR-ed with the "
+    "next byte): every integer of the format is little-endian. Decides these clauses, not that decoded values/levels equal the stored ones.")
 
 PR = "src/reader/page_reader.c"
 PW = "src/writer/page_writer.c"
@@ -43,6 +45,11 @@ def run(ctx):
     from ..rules import codecrepr
     codecrepr.reader(ctx)
     codecrepr.loaders(ctx)
+    ctx.clause("C06.6 multi-byte integers are assembled little-endian on the decoding side")
+    from ..rules import endian
+    efns = P.funcs_under("src/encoding/", "src/compression/", "src/reader/", "src/thrift/", "src/core/", "src/util/", "src/metadata/")
+    ctx.floor("C06 functions scanned for byte order", len(efns), 350)
+    endian.check(ctx, efns)
     # ---- (1) switches with error defaults
     for fname, file_, what, on, allowed in (
             ("decompress_page", PR, "codec", "codec",
